@@ -3,6 +3,8 @@ CONSTANTS
   MaxTx = 5
   MaxCores = 3
   MinBatch = 2
+  ItemCap = 2
+  BlockingAdd = TRUE
   FlushRemainder = TRUE
 INVARIANTS VerdictCorrect EverySigChecked NoSendAfterClose NotStuck
 CHECK_DEADLOCK FALSE
